@@ -1,9 +1,9 @@
-(* Obligation C20/lognormal_mass_and_moments.  Statement as printed by Coq from Inferno.C20.DistProofs; proof by reference.
+(* Obligation C20/lognormal_mass_and_moments.  Statement as printed by Coq from Inferno.C20.DistLogNormal; proof by reference.
    This file contains nothing else, so the statement cannot be weakened quietly. *)
 From Coq Require Import Reals List ZArith Bool.
 From Coquelicot Require Import Coquelicot.
 From Flocq Require Import Core.Raux.
-From Inferno Require Import Base.Num Base.NumR C20.Model C20.Spec C20.DistProofs.
+From Inferno Require Import Base.Num Base.NumR Gen.Distributions C20.Model C20.Spec C20.DistLogNormal.
 Import ListNotations.
 Open Scope R_scope.
 Theorem lognormal_mass_and_moments : forall (erf : R -> R) (loc : T RN) (scale : R),
@@ -32,5 +32,5 @@ Theorem lognormal_mass_and_moments : forall (erf : R -> R) (loc : T RN) (scale :
      Rtrigo_def.exp (2 * loc + 2 * (scale * scale)) *
      normal_cdf RN erf (Rpower.ln x) (loc + 2 * (scale * scale)) scale) 
     (at_right 0) (locally 0).
-Proof. exact (@Inferno.C20.DistProofs.lognormal_mass_and_moments). Qed.
+Proof. exact (@Inferno.C20.DistLogNormal.lognormal_mass_and_moments). Qed.
 Print Assumptions lognormal_mass_and_moments.
